@@ -1074,6 +1074,189 @@ func suiteVtt(R *runner, r *rng) {
 		}
 		R.add(o)
 	}
+	suiteVttDomain(R, r, vfrag)
+}
+
+// ---- outside the tokenizer model's faithful domain: raw-text element names ---------------------------
+
+// The names golang.org/x/net/html treats as raw-text (RCDATA / RAWTEXT / PLAINTEXT) elements: after such a start tag the
+// tokenizer returns everything up to the matching end tag (for plaintext: the rest of the input) as ONE text token, so
+// "<title>x<b>z</b></title>y" reads as the runs "x<b>z</b>" and "y", and "<plaintext>x</plaintext>y" as the single run
+// "x</plaintext>y".  They are not WebVTT cue span tags (c i b u v lang ruby rt): the property's quantifier ("tag stacks
+// ... with classes/annotations") does not reach them, the Coq model does not model them (vtt_line_simple is false on such
+// lines, and repr_vline / rendering_okb exclude them: C02_needs_no_raw_text_tag), so:
+//   - they are kept OUT of the ground truth of the oracle suites above (reader vs ground truth, writer vs independent
+//     decoder and re-read): an oracle there would state more than the property does;
+//   - here they go to the model comparison only: the reader and the line parser are compared by result class (the driver
+//     answers "NS" when a line is outside vtt_line_simple; counter <group>.outside_faithful_domain), the writer -- which
+//     does not tokenize -- byte for byte.
+var vttRawTextNames = []string{"title", "script", "style", "textarea", "xmp", "iframe", "noembed", "noframes", "noscript", "plaintext"}
+
+// vttRawTextify renames every occurrence of one or more tag names of the document to raw-text element names (sometimes
+// upper-cased: the tokenizer compares lower-cased); a document without tags gets one on its first run.
+func vttRawTextify(r *rng, d *vttDoc) bool {
+	if len(d.Cues) == 0 {
+		return false
+	}
+	names := map[string]bool{}
+	var order []string
+	for _, c := range d.Cues {
+		for _, l := range c.Lines {
+			for _, run := range l.Runs {
+				for _, t := range run.Tags {
+					if !names[t.Name] {
+						names[t.Name] = true
+						order = append(order, t.Name)
+					}
+				}
+			}
+		}
+	}
+	if len(order) == 0 {
+		run := &d.Cues[0].Lines[0].Runs[0]
+		run.Tags = []vttTag{{Name: "b"}}
+		order = []string{"b"}
+	}
+	ren := map[string]string{}
+	first := order[r.intn(len(order))]
+	for _, n := range order {
+		if n == first || r.chance(1, 3) {
+			nn := vttRawTextNames[r.intn(len(vttRawTextNames))]
+			if r.chance(1, 6) {
+				nn = strings.ToUpper(nn)
+			}
+			ren[n] = nn
+		}
+	}
+	for ci := range d.Cues {
+		for li := range d.Cues[ci].Lines {
+			for ki := range d.Cues[ci].Lines[li].Runs {
+				tags := d.Cues[ci].Lines[li].Runs[ki].Tags
+				for ti := range tags {
+					if nn, ok := ren[tags[ti].Name]; ok {
+						tags[ti].Name = nn
+					}
+				}
+			}
+		}
+	}
+	return true
+}
+
+// vttTextObs runs the library's cue-text parser on one line with an initial tag stack (model suite vtttext).
+func vttTextObs(line string, tags []astisub.WebVTTTag, group string) *obs {
+	in := &enc{}
+	in.str(line).n(len(tags))
+	for _, t := range tags {
+		encVtag(in, t)
+	}
+	o := &obs{Suite: "vtttext", Group: group, Input: in.String(), Human: map[string]interface{}{"line": line}, NT: true}
+	var l astisub.Line
+	var out []astisub.WebVTTTag
+	tcopy := append([]astisub.WebVTTTag{}, tags...)
+	p := safely(func() { l, out = astisub.VerifParseTextWebVTT(line, tcopy) })
+	if p != "" {
+		o.Impl, o.Oracle, o.Sig = "PANIC", "parseTextWebVTT panicked: "+p, "vtt-text-panic"
+		return o
+	}
+	e := &enc{}
+	e.n(0)
+	encVline(e, l)
+	e.n(len(out))
+	for _, t := range out {
+		encVtag(e, t)
+	}
+	o.Impl = e.String()
+	var runs []string
+	for _, it := range l.Items {
+		runs = append(runs, it.Text)
+	}
+	o.Human.(map[string]interface{})["library_runs"] = runs
+	return o
+}
+
+func suiteVttDomain(R *runner, r *rng, vfrag []string) {
+	R.rule("webvtt, outside the tokenizer model's faithful domain (distribution key vtt.domain.raw_text_tag): ground-truth documents whose tag names are HTML raw-text elements (title script style textarea xmp iframe noembed noframes noscript plaintext, either case), rendered and read (reader vs extracted model: result class only where a line is outside vtt_line_simple), written (writer vs extracted model, byte for byte); raw cue lines built from such start/end tags mixed with ordinary fragments (line parser vs model: result class only); no ground-truth / decoder oracle: these names are outside the property's quantifier")
+	N := 200
+	if R.tier == "thorough" {
+		N = 4000
+	}
+	for c := 0; c < N; c++ {
+		d := randVttDoc(r, true)
+		if !vttRawTextify(r, d) {
+			continue
+		}
+		R.count("vtt.domain.raw_text_tag")
+		R.count("vtt.domain.raw_text_tag.document")
+		// reader: rendered document, model comparison (class only outside the domain)
+		doc := renderVtt(r, d)
+		o := vttReadObs(doc, "vtt.read.domain", map[string]interface{}{"doc": doc, "cues": len(d.Cues)})
+		o.NT = true
+		if o.Impl == "2" {
+			o.Sig = "vtt-read-panic"
+		}
+		R.add(o)
+		// writer: the model's bytes
+		s := subsFromVttDoc(d)
+		win := &enc{}
+		encVdocIn(win, s)
+		w := &obs{Suite: "vttwritem", Group: "vtt.write.domain", NT: true, Input: win.String(), Human: map[string]interface{}{"cues": len(d.Cues), "doc": d}}
+		var buf bytes.Buffer
+		var err error
+		p := safely(func() { err = s.WriteToWebVTT(&buf) })
+		switch {
+		case p != "":
+			w.Impl, w.Oracle, w.Sig = "2", "WriteToWebVTT panicked: "+p, "vtt-write-panic"
+		case err != nil:
+			w.Impl = "1"
+		default:
+			w.Impl = (&enc{}).n(0).bytes(buf.Bytes()).String()
+			w.Human.(map[string]interface{})["written"] = buf.String()
+		}
+		R.add(w)
+	}
+	// raw cue lines
+	var rawfrag []string
+	for _, n := range vttRawTextNames {
+		rawfrag = append(rawfrag, "<"+n+">", "</"+n+">")
+	}
+	rawfrag = append(rawfrag, "<TITLE>", "</Title>", "<script x>", "<title.k>", "<style.a note>", "<textarea\t>", "<plaintext/>", "</ script>")
+	for c := 0; c < 3*N; c++ {
+		n := 1 + r.intn(6)
+		at := r.intn(n)
+		var sb strings.Builder
+		for k := 0; k < n; k++ {
+			if k == at || r.chance(1, 3) {
+				sb.WriteString(rawfrag[r.intn(len(rawfrag))])
+			} else {
+				sb.WriteString(vfrag[r.intn(len(vfrag))])
+			}
+		}
+		var tags []astisub.WebVTTTag
+		for k := 0; k < r.intn(3); k++ {
+			t := randVttTag(r)
+			if r.chance(1, 3) {
+				t.Name = vttRawTextNames[r.intn(len(vttRawTextNames))]
+			}
+			tags = append(tags, astisub.WebVTTTag{Name: t.Name, Classes: t.Classes, Annotation: t.Annotation})
+		}
+		R.count("vtt.domain.raw_text_tag")
+		R.count("vtt.domain.raw_text_tag.line")
+		R.add(vttTextObs(sb.String(), tags, "vtt.text.domain"))
+	}
+	// the lines of the Coq counter-examples (C02_needs_no_raw_text_tag*), replayed on the library; what the library returns
+	// is recorded (case.library_runs in the samples, counters vtt.domain.witness.*), not judged
+	for _, wl := range []struct{ name, line string }{
+		{"title", "<title>x</title>y"}, {"plaintext", "<plaintext>x</plaintext>y"}, {"title_nested", "<title>x<b>z</b></title>y"}, {"script_open", "<script>x<b>y"},
+		{"title_class", "<title.k>x</title.k>y"}, {"b", "<b>x</b>y"},
+	} {
+		o := vttTextObs(wl.line, nil, "vtt.text.domain")
+		if runs, ok := o.Human.(map[string]interface{})["library_runs"].([]string); ok {
+			R.count(fmt.Sprintf("vtt.domain.witness.%s.library_runs=%d", wl.name, len(runs)))
+		}
+		R.count("vtt.domain.raw_text_tag")
+		R.add(o)
+	}
 }
 
 // ---- encodings for the Coq model -------------------------------------------------------------------
